@@ -86,8 +86,10 @@ def _shape(args):
     def one(a):
         if "*" in a or "?" in a:
             return "glob"
-        if a.startswith("./") or "/../" in a:
-            return "respelled"
+        if "/../" in a:
+            return "dotdot"
+        if a.startswith("./"):
+            return "dotslash"
         if a.endswith("/"):
             return "trailing-slash"
         if a == ".":
